@@ -4,6 +4,7 @@ package c15
 import (
 	"crypto/ed25519"
 	"crypto/rand"
+	"crypto/tls"
 	"errors"
 	"fmt"
 	"github.com/mr-tron/base58"
@@ -29,7 +30,7 @@ const prop = "C15"
 
 func TestMain(m *testing.M) {
 	vkit.Rec(prop).SetLevel("exploration",
-		"one real InterceptingListener configured with an option slice of drawn length 0-11 and SPARE CAPACITY 0-8 (as an application building it with append would), 2-8 goroutines calling Accept concurrently, and waves of 4-24 clients released together behind a barrier: honest authentications with per-client state and extra protocols, activation-token enrolments whose tokens carry distinct state, node-led fetches by authorized and unauthorized nodes, and rejected clients (forged nonce signature, foreign certificate, genuine request followed by a header-less chunk). Built with -race. Oracle: the race detector reports nothing, and per connection the outcome equals what the model says for that client alone (accepted/rejected, reported state and protocol list are its own, the node record created by a token enrolment carries exactly that token's state, no other record changed). Non-trivial = spare capacity >=1, >=2 accepting goroutines and >=2 client kinds in a wave; distinct = (option slice shape, acceptors, wave composition).")
+		"one real InterceptingListener configured with an option slice of drawn length 0-11 and SPARE CAPACITY 0-8 (as an application building it with append would), 2-8 goroutines calling Accept concurrently, and waves of 4-24 clients released together behind a barrier: honest authentications with per-client state and extra protocols, activation-token enrolments whose tokens carry distinct state, node-led fetches by authorized and unauthorized nodes, and rejected clients (forged nonce signature, foreign certificate, genuine request followed by a header-less chunk); on half of the listeners (those given a base TLS configuration) also the application's own plain-TLS clients, each offering its own ALPN list. Built with -race. Oracle: the race detector reports nothing, and per connection the outcome equals what the model says for that client alone (accepted/rejected, reported state and protocol list are its own, the node record created by a token enrolment carries exactly that token's state, no other record changed). Non-trivial = spare capacity >=1, >=2 accepting goroutines and >=2 client kinds in a wave; distinct = (option slice shape, acceptors, wave composition).")
 	vkit.Rec(prop).Assume("the harness owns which clients start together, not the interleaving inside the listener; unsynchronised accesses are caught by the race detector independent of timing")
 	vkit.Main(m)
 }
@@ -87,7 +88,20 @@ func TestProp_ConcurrentHandshakes(t *testing.T) {
 		// a third of the listeners sit on a unix socket: there every client has the same
 		// (empty) remote address
 		unix := rapid.IntRange(0, 2).Draw(t, "unixSocket") == 0
-		rig := vkit.NewRig(w, vkit.RigConfig{Options: opts, Acceptors: acceptors, Unix: unix})
+		// half of the listeners also serve the application's own TLS clients (a base TLS
+		// configuration with a certificate and no protocol list of its own): such a client
+		// is handed through whatever ALPN list it offers, and clients offering different
+		// lists share the listener
+		var baseTLS *tls.Config
+		if rapid.Bool().Draw(t, "baseTlsConfiguration") {
+			baseRoot := vkit.MintRoot(time.Now().Add(-time.Hour), time.Now().Add(time.Hour))
+			baseTLS = &tls.Config{Certificates: []tls.Certificate{{Certificate: [][]byte{baseRoot.Cert.Raw}, PrivateKey: baseRoot.Priv}}}
+		}
+		kindPool := []string{"auth", "auth", "token", "token", "fetch-unauthorized", "fetch-authorized", "forged-nonce", "foreign-cert", "malformed-chunks", "token-for-enrolled-key", "token-after-rejected-probe", "token-with-twin"}
+		if baseTLS != nil {
+			kindPool = append(kindPool, "plain-tls", "plain-tls", "plain-tls")
+		}
+		rig := vkit.NewRig(w, vkit.RigConfig{Options: opts, Acceptors: acceptors, Unix: unix, BaseTLS: baseTLS})
 		rig.StallIsResult = true
 		defer rig.Close()
 
@@ -100,7 +114,7 @@ func TestProp_ConcurrentHandshakes(t *testing.T) {
 			for i := 0; i < n; i++ {
 				idc++
 				c := &client{id: idc}
-				c.kind = rapid.SampledFrom([]string{"auth", "auth", "token", "token", "fetch-unauthorized", "fetch-authorized", "forged-nonce", "foreign-cert", "malformed-chunks", "token-for-enrolled-key", "token-after-rejected-probe", "token-with-twin"}).Draw(t, "kind")
+				c.kind = rapid.SampledFrom(kindPool).Draw(t, "kind")
 				kinds[c.kind]++
 				switch c.kind {
 				case "auth", "forged-nonce", "foreign-cert", "malformed-chunks":
@@ -256,6 +270,17 @@ func TestProp_ConcurrentHandshakes(t *testing.T) {
 						if r.Conn != nil {
 							c.conn = r.Conn
 						}
+					case "plain-tls":
+						// the application's own client: plain TLS, its own ALPN list (some share one)
+						list := []string{fmt.Sprintf("app-%d", c.id)}
+						if c.id%3 == 0 {
+							list = []string{"app-common"}
+						}
+						r := (&vkit.AdvClient{NextProtos: list}).Handshake(rig.Addr)
+						c.err = r.Err
+						if r.Conn != nil {
+							c.conn = r.Conn
+						}
 					case "forged-nonce", "foreign-cert", "malformed-chunks":
 						nonce := make([]byte, 32)
 						_, _ = rand.Read(nonce)
@@ -358,6 +383,11 @@ func TestProp_ConcurrentHandshakes(t *testing.T) {
 					// one after the other, the first enrols the key; so one of them does here)
 					if _, lerr := types.LoadNodeInformation(w.Ctx, w.Inner, c.a.KeyID, w.O()...); lerr != nil {
 						fail("record-of-accepted-enrollment-missing", "client %d: two valid tokens were presented for its key at the same moment; afterwards the key has NO node record (dial error: %v; load: %v) - the enrollment that was accepted lost its record", c.id, c.err, lerr)
+					}
+				case "plain-tls":
+					// alone, a plain TLS client is handed through to the application whatever it offers
+					if c.err != nil {
+						fail("plain-client-outcome", "client %d (plain TLS through the base configuration, its own ALPN list): handshake failed with %v, although the same client is served when it is the only one", c.id, c.err)
 					}
 				case "fetch-unauthorized":
 					if !errors.Is(c.err, nodeenrollment.ErrNotAuthorized) {
